@@ -30,7 +30,8 @@ RULE = (
     "null masks, or partial nulls along an ignored dimension."
 )
 ASSUMPTIONS = [
-    "float data variables (integer/bool data can never be null)",
+    "float data variables, plus bool variables (which are never null: a "
+    "location with a flag stored has data)",
     "the find->harvest->find loop only for datasets whose variables span all "
     "parameter dimensions (a Runner always produces such variables)",
 ]
@@ -76,6 +77,10 @@ def build(case):
         bad = np.where(np.array([rng.random() < v["p_inf"] for _ in range(n)]
                                 ).reshape(shape), np.inf, np.nan)
         vals = np.where(mask, bad, vals)
+        if v.get("dtype") == "bool":
+            # a flag stored next to the numbers: never null, always data
+            vals = np.array([rng.random() < 0.5 for _ in range(n)]
+                            ).reshape(shape)
         data_vars[v["name"]] = (tuple(vd), vals)
         info[v["name"]] = (vd, vals)
     order = case.get("coord_order")
@@ -217,7 +222,8 @@ def run_case(case):
     # ---- find -> harvest -> find
     looped = False
     if case.get("loop") and all(set(pnames) <= set(v["dims"])
-                                for v in case["vars"]) and want:
+                                for v in case["vars"]) and want and \
+            all(v.get("dtype", "float") == "float" for v in case["vars"]):
         spec = {"vars": [[v["name"], [d for d in v["dims"]
                                       if d in case["isizes"]]]
                          for v in case["vars"]],
@@ -281,7 +287,9 @@ def run_case(case):
 @st.composite
 def strategy(draw):
     nd = draw(st.integers(1, 4))
-    names = draw(st.lists(st.sampled_from(["a", "b", "c", "d", "x", "n"]),
+    # (some names are contained in the name of an ignored dimension)
+    names = draw(st.lists(st.sampled_from(["a", "b", "c", "d", "x", "n", "t",
+                                           "i", "e", "me"]),
                           min_size=nd, max_size=nd, unique=True))
     dims = [[n, draw(gens.arg_values(1, 4 if nd < 4 else 3, mixed=False))]
             for n in names]
@@ -304,6 +312,8 @@ def strategy(draw):
             "p_cell": draw(st.sampled_from([0.5, 0.0, 0.3, 0.8, 1.0])),
             "p_elem": draw(st.sampled_from([0.0, 0.0, 0.3, 0.7])),
             "p_inf": draw(st.sampled_from([0.0, 0.0, 0.5])),
+            "dtype": draw(st.sampled_from(["float", "float", "float",
+                                           "bool"])) if j > 0 else "float",
         })
     if draw(st.booleans()) and nv > 1:
         # same mask for all variables (whole-dataset holes)
